@@ -68,8 +68,10 @@ pub enum Ev {
     PEmpty,
     PEof,
     PWithholdClose,
+    /// let one second of virtual time pass (heartbeats fire if the peer advertised an idle time-out)
+    Wait,
 }
-pub const ALPHABET: [Ev; 12] = [
+pub const ALPHABET: [Ev; 13] = [
     Ev::LBegin,
     Ev::LClose,
     Ev::PClose,
@@ -82,6 +84,7 @@ pub const ALPHABET: [Ev; 12] = [
     Ev::PEmpty,
     Ev::PEof,
     Ev::PWithholdClose,
+    Ev::Wait,
 ];
 
 enum Handle {
@@ -97,6 +100,14 @@ pub struct Obs {
     pub trace: Vec<String>,
     pub fails: Vec<(String, String)>,
     pub state_keys: Vec<u64>,
+}
+
+fn peer_open_idle(idle: bool) -> Open {
+    let mut o = peer_open();
+    if idle {
+        o.idle_time_out = Some(200);
+    }
+    o
 }
 
 fn peer_open() -> Open {
@@ -192,11 +203,14 @@ fn lib_opened(trace: &[WFrame]) -> bool {
     trace.iter().any(|w| matches!((&w.body, w.dir), (Body::Perf(Performative::Open(_)), Dirn::FromLib)))
 }
 
-pub async fn scenario(role: Role, ov: OpenVariant, events: Vec<Ev>) -> Obs {
+pub async fn scenario(role: Role, ov: OpenVariant, idle: bool, events: Vec<Ev>) -> Obs {
     let mut obs = Obs::default();
     let (pipe, a, _b) = Pipe::new();
     let mut auto = Auto::default();
     auto.max_frame_size = 4096;
+    if idle {
+        auto.idle_time_out = Some(200);
+    }
     let h = Duration::from_secs(5);
     // ---------------------------------------------------------------- stage A: opening handshake
     let mut peer;
@@ -215,7 +229,7 @@ pub async fn scenario(role: Role, ov: OpenVariant, events: Vec<Ev>) -> Obs {
             match ov {
                 OpenVariant::Pipelined => {
                     peer.send_proto_header(AMQP_HEADER);
-                    peer.send(0, Performative::Open(peer_open()));
+                    peer.send(0, Performative::Open(peer_open_idle(idle)));
                 }
                 OpenVariant::WrongHeaderVersion => peer.send_proto_header([b'A', b'M', b'Q', b'P', 0, 1, 1, 0]),
                 OpenVariant::SaslHeader => peer.send_proto_header(SASL_HEADER),
@@ -237,15 +251,15 @@ pub async fn scenario(role: Role, ov: OpenVariant, events: Vec<Ev>) -> Obs {
                         round += 1;
                         if round == 2 {
                             match ov {
-                                OpenVariant::LateOpen => peer.send(0, Performative::Open(peer_open())),
+                                OpenVariant::LateOpen => peer.send(0, Performative::Open(peer_open_idle(idle))),
                                 OpenVariant::FrameBeforeOpen => {
                                     let b = Begin { remote_channel: None, next_outgoing_id: 0, incoming_window: 10, outgoing_window: 10, handle_max: Default::default(), offered_capabilities: None, desired_capabilities: None, properties: None };
                                     peer.send(0, Performative::Begin(b));
-                                    peer.send(0, Performative::Open(peer_open()));
+                                    peer.send(0, Performative::Open(peer_open_idle(idle)));
                                 }
                                 OpenVariant::HeaderThenEof => peer.close_write(),
                                 OpenVariant::OpenClosePipelined => {
-                                    peer.send(0, Performative::Open(peer_open()));
+                                    peer.send(0, Performative::Open(peer_open_idle(idle)));
                                     peer.send(0, Performative::Close(Close { error: None }));
                                 }
                                 _ => {}
@@ -310,7 +324,7 @@ pub async fn scenario(role: Role, ov: OpenVariant, events: Vec<Ev>) -> Obs {
                 OpenVariant::Default | OpenVariant::LateOpen | OpenVariant::OpenClosePipelined | OpenVariant::FrameBeforeOpen | OpenVariant::HeaderThenEof => peer.send_proto_header(AMQP_HEADER),
                 OpenVariant::Pipelined => {
                     peer.send_proto_header(AMQP_HEADER);
-                    peer.send(0, Performative::Open(peer_open()));
+                    peer.send(0, Performative::Open(peer_open_idle(idle)));
                 }
                 OpenVariant::WrongHeaderVersion => peer.send_proto_header([b'A', b'M', b'Q', b'P', 0, 1, 1, 0]),
                 OpenVariant::SaslHeader => peer.send_proto_header(SASL_HEADER),
@@ -332,15 +346,15 @@ pub async fn scenario(role: Role, ov: OpenVariant, events: Vec<Ev>) -> Obs {
                         round += 1;
                         if round == 2 {
                             match ov {
-                                OpenVariant::Default | OpenVariant::LateOpen => peer.send(0, Performative::Open(peer_open())),
+                                OpenVariant::Default | OpenVariant::LateOpen => peer.send(0, Performative::Open(peer_open_idle(idle))),
                                 OpenVariant::FrameBeforeOpen => {
                                     let b = Begin { remote_channel: None, next_outgoing_id: 0, incoming_window: 10, outgoing_window: 10, handle_max: Default::default(), offered_capabilities: None, desired_capabilities: None, properties: None };
                                     peer.send(0, Performative::Begin(b));
-                                    peer.send(0, Performative::Open(peer_open()));
+                                    peer.send(0, Performative::Open(peer_open_idle(idle)));
                                 }
                                 OpenVariant::HeaderThenEof => peer.close_write(),
                                 OpenVariant::OpenClosePipelined => {
-                                    peer.send(0, Performative::Open(peer_open()));
+                                    peer.send(0, Performative::Open(peer_open_idle(idle)));
                                     peer.send(0, Performative::Close(Close { error: None }));
                                 }
                                 _ => {}
@@ -424,6 +438,7 @@ pub async fn scenario(role: Role, ov: OpenVariant, events: Vec<Ev>) -> Obs {
             Ev::PBeginUnknown | Ev::PEndUnmapped | Ev::PFlowUnmapped | Ev::PEmpty => !peer_eof,
             Ev::PEof => !peer_eof,
             Ev::PWithholdClose => peer.auto.close && !peer_eof && peer_closed.is_none(),
+            Ev::Wait => idle,
         };
         if !enabled {
             break;
@@ -563,6 +578,16 @@ pub async fn scenario(role: Role, ov: OpenVariant, events: Vec<Ev>) -> Obs {
                 peer_eof = true;
             }
             Ev::PWithholdClose => peer.auto.close = false,
+            Ev::Wait => {
+                for _ in 0..10 {
+                    tokio::time::sleep(Duration::from_millis(100)).await;
+                    peer.pump();
+                    // a conforming peer keeps the connection alive from its side too
+                    if !peer_eof && peer_closed.is_none() {
+                        peer.send_empty();
+                    }
+                }
+            }
         }
         settle(&mut peer, 3).await;
         obs.executed = i + 1;
@@ -575,6 +600,17 @@ pub async fn scenario(role: Role, ov: OpenVariant, events: Vec<Ev>) -> Obs {
                 "peer-close-unanswered".into(),
                 format!("the peer's close was not answered with a close at the next quiescent state (after event {:?})", ev),
             ));
+        }
+        // a clean close from the peer, with nothing illegal having happened and no local close-with-error, is
+        // answered with a clean close (queued frames are flushed first; flushing them must not turn into an error)
+        if let (Some(None), Some(Some(e))) = (&peer_closed, &lib_close) {
+            let local_err_close = events[..=i].iter().any(|e| *e == Ev::LCloseErr);
+            if illegal_sent.is_empty() && !local_err_close {
+                obs.fails.push((
+                    "clean-peer-close-answered-with-error".into(),
+                    format!("the peer closed cleanly and nothing illegal happened, but the library's close carries {:?}", e.condition),
+                ));
+            }
         }
         // an illegal frame closes the connection with an error and is not acted on - unless the library had
         // already sent its close (then everything is ignored) or the peer had already closed
@@ -624,17 +660,17 @@ pub async fn scenario(role: Role, ov: OpenVariant, events: Vec<Ev>) -> Obs {
     obs
 }
 
-fn run_history(role: Role, ov: OpenVariant, evs: Vec<Ev>) -> HistOut {
+fn run_history(role: Role, ov: OpenVariant, idle: bool, evs: Vec<Ev>) -> HistOut {
     let scen: Scenario<Obs> = {
         let evs = evs.clone();
         Arc::new(move || {
             let evs = evs.clone();
-            Box::pin(scenario(role, ov, evs))
+            Box::pin(scenario(role, ov, idle, evs))
         })
     };
     let ex = run_exec(vec![], &RunCfg::none(), &scen);
     let mut out = HistOut::default();
-    let ctxs = format!("{:?}/{:?}", role, ov);
+    let ctxs = format!("{:?}/{:?}{}", role, ov, if idle { "/peer-idle-time-out=200ms" } else { "" });
     match ex.out {
         Some(o) => {
             out.executed = o.executed;
@@ -676,7 +712,7 @@ pub fn run(ctx: &Ctx) -> Outcome {
     // stage A: every open variant in both roles (no further events)
     for role in [Role::Client, Role::Listener] {
         for ov in OPEN_VARIANTS {
-            let o = run_history(role, ov, vec![]);
+            let o = run_history(role, ov, false, vec![]);
             executions += 1;
             states += 1;
             if let Some(m) = o.machinery {
@@ -693,8 +729,13 @@ pub fn run(ctx: &Ctx) -> Outcome {
             if ov == OpenVariant::Pipelined && ctx.quick() {
                 continue;
             }
+          for idle in [false, true] {
+            if idle && ov != OpenVariant::Default {
+                continue;
+            }
+            // without an idle time-out `Wait` is disabled, so the search prunes it
             let st = search(ALPHABET.len(), depth, ctx.threads, deadline, |h| {
-                run_history(role, ov, h.iter().map(|i| ALPHABET[*i]).collect())
+                run_history(role, ov, idle, h.iter().map(|i| ALPHABET[*i]).collect())
             });
             executions += st.executions;
             events += st.events_executed;
@@ -709,16 +750,19 @@ pub fn run(ctx: &Ctx) -> Outcome {
                 out.violation(
                     sig,
                     format!("history {:?}: {detail}", evs),
-                    json!({"role": format!("{:?}", role), "open": format!("{:?}", ov), "events": h, "event_names": evs, "trace": trace}),
+                    json!({"role": format!("{:?}", role), "open": format!("{:?}", ov), "idle": idle, "events": h, "event_names": evs, "trace": trace}),
                 );
             }
             if samples.len() < 3 {
                 samples.extend(st.sample_traces.into_iter().take(1));
             }
+          }
         }
     }
     // schedule exploration: local close races the peer's close (real client <-> real listener)
-    let sched = schedule_race(ctx, deadline, &mut out);
+    let sched1 = schedule_race(ctx, deadline, &mut out);
+    let sched2 = schedule_close_vs_queued_ends(ctx, deadline, &mut out);
+    let sched = (sched1.0 + sched2.0, sched1.1 + sched2.1, format!("{}; {}", sched1.2, sched2.2));
     out.set("states", states.max(1));
     out.set("transitions", transitions.max(1) + sched.1);
     out.set("traces_validated_against_impl", executions + sched.0);
@@ -804,6 +848,80 @@ fn schedule_race(ctx: &Ctx, deadline: Instant, out: &mut Outcome) -> (u64, u64, 
     (st.executions, st.points_total, format!("open+close race, {} ({} executions, level {:?} complete)", bounds.describe(), st.executions, st.completed_level))
 }
 
+/// real client against the scripted peer: two sessions are dropped (their end frames get queued) at the same
+/// instant as the peer's clean close arrives; all schedules within the bound.  The peer's close must be
+/// answered by a clean close and whatever end frames are written come before it.
+fn schedule_close_vs_queued_ends(ctx: &Ctx, deadline: Instant, out: &mut Outcome) -> (u64, u64, String) {
+    let scen: Scenario<(Vec<String>, Vec<(String, String)>)> = Arc::new(|| {
+        Box::pin(async {
+            let (pipe, a, _b) = Pipe::new();
+            let mut auto = Auto::default();
+            auto.max_frame_size = 4096;
+            let mut peer = Peer::new(pipe, 1, auto);
+            let h = Duration::from_secs(5);
+            let mut fails = vec![];
+            let Some(Ok(mut conn)) = drive(&mut peer, Connection::builder().container_id("lib").open_with_stream(a), h).await else {
+                return (vec![], vec![("machinery".to_string(), "open failed".to_string())]);
+            };
+            let s1 = drive(&mut peer, Session::begin(&mut conn), h).await;
+            let s2 = drive(&mut peer, Session::begin(&mut conn), h).await;
+            let s3 = drive(&mut peer, Session::begin(&mut conn), h).await;
+            settle(&mut peer, 2).await;
+            // the racing step: three session handles dropped and a clean close from the peer, at one instant
+            drop(s1);
+            drop(s2);
+            drop(s3);
+            peer.auto.end = true;
+            peer.send(0, Performative::Close(Close { error: None }));
+            settle(&mut peer, 4).await;
+            let res = drive(&mut peer, conn.on_close(), h).await;
+            settle(&mut peer, 2).await;
+            match lib_closed(&peer.trace) {
+                None => fails.push(("race2: peer-close-unanswered".to_string(), "the peer's close was never answered".to_string())),
+                Some(Some(e)) => fails.push((
+                    "race2: clean-peer-close-answered-with-error".to_string(),
+                    format!("sessions were being ended while the peer closed cleanly; the library's close carries {:?}", e.condition),
+                )),
+                Some(None) => {}
+            }
+            match res {
+                None => fails.push(("race2: on_close-hangs".to_string(), "on_close() never returned".to_string())),
+                Some(Ok(())) | Some(Err(ConnError::RemoteClosed)) => {}
+                Some(Err(e)) => fails.push(("race2: clean-close-reported-as-error".to_string(), format!("on_close() returned {e}"))),
+            }
+            fails.extend(judge_trace(&peer.trace, false).into_iter().map(|(s, d)| (format!("race2: {s}"), d)));
+            (trace_to_strings(&peer.trace), fails)
+        })
+    });
+    let bounds = if ctx.quick() { Bounds::new(1) } else { Bounds::new(2).kind(Kind::Select, 1) };
+    let cfg = RunCfg::default();
+    let fails = std::sync::Mutex::new(vec![]);
+    let st = explore(&cfg, &bounds, &scen, ctx.threads, deadline, |e| {
+        let mut f = vec![];
+        match &e.out {
+            None => f.push(("race2: scenario-died".to_string(), format!("panics {:?}", e.panics))),
+            Some((_, fl)) => f.extend(fl.iter().cloned()),
+        }
+        if e.spun {
+            f.push(("race2: spin".to_string(), "busy loop detected".to_string()));
+        }
+        if !f.is_empty() {
+            fails.lock().unwrap().push((f, e.points.clone(), e.out.as_ref().map(|o| o.0.clone())));
+        }
+        h64(&e.out.as_ref().map(|o| &o.0))
+    });
+    for (f, points, trace) in fails.into_inner().unwrap() {
+        for (s, d) in f {
+            if s == "machinery" {
+                out.machinery_errors.push(d);
+            } else {
+                out.violation(s, d, json!({"schedule": points, "trace": trace}));
+            }
+        }
+    }
+    (st.executions, st.points_total, format!("sessions-ending vs peer close, {} ({} executions, {} distinct traces)", bounds.describe(), st.executions, st.distinct_obs))
+}
+
 fn replay(p: &std::path::Path, mut out: Outcome) -> Outcome {
     let s = std::fs::read_to_string(p).unwrap_or_default();
     let j: serde_json::Value = serde_json::from_str(&s).unwrap_or_default();
@@ -812,7 +930,7 @@ fn replay(p: &std::path::Path, mut out: Outcome) -> Outcome {
     let ov = OPEN_VARIANTS.iter().copied().find(|o| format!("{:?}", o) == r["open"].as_str().unwrap_or("")).unwrap_or(OpenVariant::Default);
     let evs: Vec<Ev> = r["events"].as_array().map(|a| a.iter().filter_map(|x| x.as_u64()).map(|i| ALPHABET[i as usize]).collect()).unwrap_or_default();
     println!("replaying {:?} {:?} {:?}", role, ov, evs);
-    let o = run_history(role, ov, evs);
+    let o = run_history(role, ov, r["idle"].as_bool().unwrap_or(false), evs);
     for l in &o.trace {
         println!("  {l}");
     }
